@@ -1,6 +1,7 @@
 // C03 correspondence harness: NBListGrid / NBList pair searches (one and two lists, with and without exclusions, counting
 // match callback) and the 3-body searches (grid and simple; 1, 2 and 3 bead types) of the real code on generated configurations.
 #include "common.h"
+#include <tuple>
 #include <algorithm>
 #include <map>
 #include <sstream>
@@ -56,6 +57,14 @@ static std::string header(const char *op, const char *algo, int lists, int excl,
   return o.str();
 }
 
+// counting match function of the three-body searches: invocations per triple (centre, {j, k})
+static std::map<std::tuple<long, long, long>, int> calls3;
+static bool counter3(Bead *a, Bead *b, Bead *c, const V &, const V &, const V &, double, double, double) {
+  long j = b->getId(), k = c->getId();
+  calls3[std::make_tuple(a->getId(), std::min(j, k), std::max(j, k))]++;
+  return true;
+}
+
 static bool g_exact = true;
 static void pairs_case(const Cfg &c, bool grid, int lists, bool excl) {
   Topology top; build(top, c);
@@ -97,10 +106,15 @@ static void triples_case(const Cfg &c, bool grid, int ntypes, bool excl) {
     nb->Cleanup();
   }
   nb->setCutoff(c.rc);
+  calls3.clear();
+  nb->SetMatchFunction(counter3);
   if (ntypes == 1) nb->Generate(l1, excl); else if (ntypes == 2) nb->Generate(l1, l2, excl); else nb->Generate(l1, l2, l3, excl);
   std::ostringstream o;
   o << header(g_exact ? "triples" : "gtriples", grid ? "grid" : "simple", ntypes, excl, c) << " | " << nb->size();
   for (auto *t : *nb) o << " " << t->bead1()->getId() << " " << t->bead2()->getId() << " " << t->bead3()->getId();
+  long ninv = 0;
+  for (auto &kv : calls3) ninv += kv.second;
+  o << " | " << ninv << " " << calls3.size();
   printf("%s\n", o.str().c_str());
 }
 
